@@ -39,6 +39,12 @@ def cases(tier, seed):
         else:
             local, peer = rnd.choice([65536, 2 ** 31, 2 ** 32 - 1]), m
         yield dict(local=local, peer=peer, seed=seed * 100003 + i)
+    # two caller threads sending on ONE association at the same time (line-level pre-emption
+    # inside send/encode): every message must still be one contiguous fragment sequence
+    for i in range(300 if tier == 'quick' else 10000):
+        m = rnd.choice([24, 40, 64, 128, 1024])
+        yield dict(local=m, peer=65536, seed=seed * 100043 + i, senders=2,
+                   fine=['send', 'encode', '_fragments', 'set_length'])
     if tier == 'thorough':
         from pynetdicom2 import dimsemessages  # noqa
         for m in range(7, 41):
@@ -47,17 +53,20 @@ def cases(tier, seed):
                 yield dict(local=m, peer=65536, seed=seed, grid=[m, ln])
 
 
-def evaluate(out, want):
+def evaluate(out, want, by_content=False):
     """Shared with C08/C10: per-message findings.  want in {'c06','c08'}."""
     res = []
-    pairs, groups = dimse_send.pair_up(out)
+    pairs, groups = dimse_send.pair_up(out, by_content)
     peer = out['peer']
     for s, g in pairs:
         rec = {'send': s, 'problems': []}
         res.append(rec)
         if g is None:
-            rec['problems'].append(('not-transmitted', 'message %d (%s) never appeared on the wire'
-                                    % (s.index, s.cls)))
+            rec['problems'].append((
+                'not-transmitted' if not by_content else 'not-transmitted-as-one-contiguous-message',
+                'message %d (%s) never appeared on the wire%s' % (
+                    s.index, s.cls, ' as a contiguous, byte-exact fragment sequence' if by_content
+                    else '')))
             continue
         fr, cmd, data = peers.check_fragmentation(g, s.max_length, s.pcid)
         rec['cmd'], rec['data'], rec['npdv'] = cmd, data, sum(len(p['pdvs']) for p in g)
@@ -95,6 +104,10 @@ def evaluate(out, want):
                 rec['problems'].append(('command-content-differs-from-send-time',
                                         'sent %r\nwire %r' % (_norm(_cmd_fields(s.fields)),
                                                               _norm(fields))))
+    if by_content and out.get('unmatched_groups'):
+        res.append({'send': None, 'problems': [(
+            'wire-message-matches-no-send', '%d message groups on the wire match nothing that was '
+            'sent (fragments of different messages interleaved?)' % len(out['unmatched_groups']))]})
     if len(groups) > len(pairs):
         res.append({'send': None, 'problems': [('extra-message-on-wire', '%d groups, %d sends' % (
             len(groups), len(pairs)))]})
@@ -140,7 +153,9 @@ def run_case(case, want='c06'):
                       resend=0, pause=0),
                  dict(cf=0x8020, data='file' if ln else 'none', size=ln, pcid=3, full=True,
                       resend=0, pause=0)]
-    out = dimse_send.run(case['seed'], case['local'], case['peer'], specs=specs)
+    out = dimse_send.run(case['seed'], case['local'], case['peer'], specs=specs,
+                         nassoc=case.get('nassoc', 1), senders=case.get('senders', 1),
+                         fine=case.get('fine'))
     world = out['world']
     try:
         viol = []
@@ -153,7 +168,14 @@ def run_case(case, want='c06'):
         if t.exc is not None:
             viol.append({'sig': '%s sender-failed exc=%s' % (prop, type(t.exc).__name__),
                          'detail': '%s\ncase %r' % (t.tb, case)})
-        recs = evaluate(out, want)
+        recs = []
+        for rec_ in out['assocs']:
+            sub = {'peer': rec_['peer'], 'sends': rec_['sends']}
+            recs += evaluate(sub, want, by_content=case.get('senders', 1) > 1)
+            for ut in rec_['users']:
+                if ut.exc is not None and isinstance(ut.exc, Exception) and ut is not t:
+                    viol.append({'sig': '%s sender-failed exc=%s' % (prop, type(ut.exc).__name__),
+                                 'detail': '%s\ncase %r' % (ut.tb, case)})
         nontrivial = False
         keys = []
         for r in recs:
